@@ -29,6 +29,9 @@ package tinder
 //@   for C16
 //@   requires pcOK(c) && unlocked(addr(c.muPeers))
 //@   at (*Notify).Broadcast requires [C16.broadcast-under-L] locked(n.L)
+//@   # update times must be ordered like the critical sections that store them, or a waiter that already
+//@   # recorded a later time misses the change: the clock is read while the topic's lock is held
+//@   at time.Now requires [C16.tinder.stamp-under-lock] has(caller_c.topics, caller_topic) && locked(caller_c.topics[caller_topic].notify.L)
 //@   modifies lockstate(addr(c.muPeers)), mapof(c.topics), lockstate(addr(c.muCache)), mapof(c.peers)
 //@   modifies lockstate(c.topics[topic].notify.L), mapof(c.topics[topic].peerUpdate), c.topics[topic].notify.cc, lockstate(addr(c.topics[topic].notify.mu)), bcasts(c.topics[topic].notify)
 //@   ensures [C16.tinder.update.unlock] unlocked(addr(c.muPeers)) && pcOK(c)
@@ -36,20 +39,35 @@ package tinder
 //@ func (*peersCache).WaitForPeerUpdate
 //@   for C16
 //@   requires pcOK(c) && ctx != nil && current != nil
+//@   requires forall t Bytes {has(c.topics, t)} :: has(c.topics, t) ==> c.topics[t].peerUpdate != current
 //@   modifies mapof(c.topics), lockstate(addr(c.muCache)), mapof(current), cancelled(ctx)
 //@   modifies lockstate(c.topics[topic].notify.L), c.topics[topic].notify.cc, lockstate(addr(c.topics[topic].notify.mu)), waitreg(c.topics[topic].notify)
 //@   ensures [C16.tinder.wait] (ok ==> len(updated) > 0) && (!ok ==> cancelled(ctx))
 //@   ensures [C16.tinder.wait.unlock] has(c.topics, topic) && unlocked(c.topics[topic].notify.L) && unlocked(addr(c.topics[topic].notify.mu))
+//@   loop 0 invariant tu.peerUpdate != current
 //@   loop 0 invariant tuOK2(tu) && locked(tu.notify.L) && (!ok ==> cancelled(ctx)) && has(c.topics, topic) && c.topics[topic] == tu
 
 //@ pred tuOK2(tu) = tu != nil && tu.notify != nil && tu.notify.L != nil && tu.peerUpdate != nil
 //@     && unlocked(addr(tu.notify.mu)) && tu.notify.L != addr(tu.notify.mu)
 
+//@ # HasUpdate: afterwards the waiter's view has caught up with every recorded update time; whenever a recorded
+//@ # time was unknown to the waiter or later than what it had seen, something is reported; nothing reported means
+//@ # the view did not change
 //@ func (PeersUpdate).HasUpdate
 //@   for C16
-//@   requires current != nil && tu != nil && tu.peerUpdate != nil
+//@   requires current != nil && tu != nil && tu.peerUpdate != nil && current != tu.peerUpdate
 //@   modifies mapof(current)
 //@   ensures len(result) >= 0
+//@   ensures [C16.tinder.hasupdate.caughtup] forall p Bytes {has(tu.peerUpdate, p)} :: has(tu.peerUpdate, p) ==> has(current, p) && tns(current[p]) >= tns(tu.peerUpdate[p])
+//@   ensures [C16.tinder.hasupdate.reported] forall p Bytes {has(tu.peerUpdate, p)} :: has(tu.peerUpdate, p)
+//@        && (!old(has(current, p)) || tns(tu.peerUpdate[p]) > tns(old(current[p]))) ==> len(result) > 0
+//@   ensures [C16.tinder.hasupdate.quiet] len(result) == 0 ==> (forall p Bytes {has(current, p)} :: has(current, p) == old(has(current, p)) && current[p] == old(current[p]))
+//@   loop 0 invariant forall p Bytes {visited(tu.peerUpdate, p)} :: visited(tu.peerUpdate, p) ==> has(current, p) && tns(current[p]) >= tns(tu.peerUpdate[p])
+//@   loop 0 invariant forall p Bytes {visited(tu.peerUpdate, p)} :: visited(tu.peerUpdate, p)
+//@        && (!old(has(current, p)) || tns(tu.peerUpdate[p]) > tns(old(current[p]))) ==> len(peers) > 0
+//@   loop 0 invariant forall p Bytes {has(current, p)} :: !visited(tu.peerUpdate, p) ==> has(current, p) == old(has(current, p)) && current[p] == old(current[p])
+//@   loop 0 invariant len(peers) == 0 ==> (forall p Bytes {has(current, p)} :: has(current, p) == old(has(current, p)) && current[p] == old(current[p]))
+//@   loop 0 invariant len(peers) >= 0
 
 //@ func (*peersCache).GetPeersForTopics
 //@   for C16
